@@ -16,7 +16,7 @@ structure GSpecEntry where
   accepted : List Nat
   lastHeard : Nat
 
-inductive Kind | unicast | plain | group
+inductive Kind | unicast | plain | group | glue
 deriving DecidableEq
 
 structure St where
@@ -65,11 +65,36 @@ def lruSpecIdx (es : List GSpecEntry) : Nat :=
   | [] => 0
   | e :: r => go 1 0 e.lastHeard r
 
+def groupOp (st : St) (f n c : Nat) (out : String) : St × String :=
+  let r := st.store.postRecv f n c
+  let implAcc := out = "acc"
+  let clk := st.gclock + 1
+  -- oracle
+  let idx := st.gspec.findIdx? (fun e => e.fab = f ∧ e.node = n)
+  let (want, gs') : Option Bool × List GSpecEntry :=
+    match idx with
+    | some i =>
+      match st.gspec[i]? with
+      | some e => (gExpect e c, st.gspec.set i (gUpdate e c clk implAcc))
+      | none => (none, st.gspec)
+    | none =>
+      let base := c + U32  -- unbounded position of the trust-first message
+      let ne : GSpecEntry := { fab := f, node := n, first := base, maxPos := base, accepted := [base], lastHeard := clk }
+      if st.gspec.length < Consts.maxGroupCtrEntries then (some true, st.gspec ++ [ne])
+      else (some true, st.gspec.set (lruSpecIdx st.gspec) ne)
+  let st' := { st with store := r.1, gspec := gs', gclock := clk }
+  match want with
+  | some w =>
+    if w ≠ implAcc then (st', s!"ORA spec={verdict w} impl={out}")
+    else if verdict r.2 = out then (st', "ok") else (st', s!"DIS {verdict r.2}")
+  | none => if verdict r.2 = out then (st', "ok") else (st', s!"DIS {verdict r.2}")
+
 def step (st : St) (line : String) : St × String :=
   let (op, out) := splitArrow line
   match words op with
   | "case" :: _ :: k :: _ =>
-    let kind := if k = "g" then Kind.group else if k = "p" then Kind.plain else Kind.unicast
+    let kind := if k = "g" then Kind.group else if k = "gg" then Kind.glue
+      else if k = "p" then Kind.plain else Kind.unicast
     ({ kind := kind }, "case")
   | [cs] =>
     match cs.toNat? with
@@ -90,32 +115,30 @@ def step (st : St) (line : String) : St × String :=
       match ora with
       | some why => (st', s!"ORA {why}")
       | none => if verdict r.2 = out then (st', "ok") else (st', s!"DIS {verdict r.2}")
-  | [fs, ns, cs] =>
-    match fs.toNat?, ns.toNat?, cs.toNat? with
-    | some f, some n, some c =>
+  | [ns, cs, mk] =>
+    if st.kind = Kind.glue then
+      -- group glue: `<node> <ctr> <d|c|x|m>` through the real receive path; fabric index 1
+      match ns.toNat?, cs.toNat? with
+      | some n, some c =>
+        if c ≥ U32 then (st, "BAD range") else
+        if mk = "d" then
+          groupOp st 1 n c out
+        else if mk = "c" then
+          -- control messages are not subject to the data counter store and leave it untouched
+          (st, if out = "acc" then "ok" else s!"DIS acc")
+        else
+          -- not authentic: never accepted, and the store is untouched (checked by what follows)
+          if out = "acc" then (st, "ORA an unauthenticated group message was accepted")
+          else if out = "noauth" then (st, "ok") else (st, "DIS noauth")
+      | _, _ => (st, "BAD nums")
+    else
+    match ns.toNat?, cs.toNat?, mk.toNat? with
+    | some f0, some n0, some c0 =>
+      let f := f0
+      let n := n0
+      let c := c0
       if c ≥ U32 then (st, "BAD range") else
-      let r := st.store.postRecv f n c
-      let implAcc := out = "acc"
-      let clk := st.gclock + 1
-      -- oracle
-      let idx := st.gspec.findIdx? (fun e => e.fab = f ∧ e.node = n)
-      let (want, gs') : Option Bool × List GSpecEntry :=
-        match idx with
-        | some i =>
-          match st.gspec[i]? with
-          | some e => (gExpect e c, st.gspec.set i (gUpdate e c clk implAcc))
-          | none => (none, st.gspec)
-        | none =>
-          let base := c + U32  -- unbounded position of the trust-first message
-          let ne : GSpecEntry := { fab := f, node := n, first := base, maxPos := base, accepted := [base], lastHeard := clk }
-          if st.gspec.length < Consts.maxGroupCtrEntries then (some true, st.gspec ++ [ne])
-          else (some true, st.gspec.set (lruSpecIdx st.gspec) ne)
-      let st' := { st with store := r.1, gspec := gs', gclock := clk }
-      match want with
-      | some w =>
-        if w ≠ implAcc then (st', s!"ORA spec={verdict w} impl={out}")
-        else if verdict r.2 = out then (st', "ok") else (st', s!"DIS {verdict r.2}")
-      | none => if verdict r.2 = out then (st', "ok") else (st', s!"DIS {verdict r.2}")
+      groupOp st f n c out
     | _, _, _ => (st, "BAD nums")
   | _ => (st, "BAD op")
 
